@@ -43,4 +43,8 @@ void vf_bn_unit(unsigned nmax, uint64_t unit, vf_bytes_fn fn, void* ctx);
 
 /* neighbours of a head sequence; fn is called with each mutated byte string */
 void vf_neighbours(const vf_seq* s, vf_bytes_fn fn, void* ctx);
+/* boundary corpus (vf_corpus.c): items on every head-width boundary and growth step */
+void vf_corpus_init(void);
+size_t vf_corpus_count(void);
+const uint8_t* vf_corpus_item(size_t i, size_t* n, const char** name);
 #endif
